@@ -27,6 +27,8 @@ CONSTANTS
   Families = {%(fams)s}
   CtxIds = {%(ctxs)s}
   EscLen = %(esclen)d
+  NParts = %(nparts)d
+  Part = %(part)d
   MaxSteps = 600
   KnownRepeatOverMapping = %(known)s
 %(invs)s
@@ -42,11 +44,10 @@ POSTCONDITION Post
 CHECK_DEADLOCK FALSE
 """
 
+# family groups and the number of TLC processes each group is split over (product families only)
 TIERS = {
-    "quick": dict(parts=[["expr", "void", "deep"], ["one0"], ["one1"], ["one2"], ["nestq0"], ["nestq1"], ["nestq2"],
-                         ["metal0"]], ctxs=["A"]),
-    "thorough": dict(parts=[["expr", "void", "deep"], ["one0"], ["one1"], ["one2"], ["nest0"], ["nest1"], ["nest2"],
-                            ["metal0"], ["metal1"]], ctxs=["A", "B"]),
+    "quick": dict(parts=[(["expr", "void", "deep", "metalx"], 1), (["one"], 3), (["nest"], 3), (["metal"], 2)], ctxs=["A"]),
+    "thorough": dict(parts=[(["expr", "void", "deep", "metalx"], 1), (["one"], 4), (["nest"], 12), (["metal"], 2)], ctxs=["A", "B"]),
 }
 
 
@@ -64,13 +65,17 @@ def model_check(chk, parts, ctxs, invs, consts_text, esclen=2, timeout=3000, qui
     known = "TRUE" if known_flag(chk, "RepeatOverMapping") else "FALSE"
     quick = (chk.tier == "quick") if quick is None else quick
     jobs = []
-    for i, fams in enumerate(parts):
-        for cx in ctxs:
-            jobs.append((i, fams, cx))
+    for fams, nparts in parts:
+        own_ctx = all(f in ("esc", "doc", "py") for f in fams)      # families that bring their own context
+        for cx in (ctxs[:1] if own_ctx else ctxs):
+            for part in range(nparts):
+                jobs.append((fams, cx, nparts, part))
+    jobs.sort(key=lambda j: -j[2])          # the split (big) families first
 
     def one(job):
-        i, fams, cx = job
+        fams, cx, nparts, part = job
         cfg = MC_CFG % dict(consts=consts_text, fams=", ".join('"%s"' % f for f in fams), ctxs='"%s"' % cx, esclen=esclen,
+                            nparts=nparts, part=part,
                             quick="TRUE" if quick else "FALSE", known=known, invs="\n".join("INVARIANT " + x for x in invs))
         sd = tlc.new_scratch("c17cases")
         cf = os.path.join(sd, "cases.json")
@@ -81,7 +86,7 @@ def model_check(chk, parts, ctxs, invs, consts_text, esclen=2, timeout=3000, qui
             if os.path.exists(cf):
                 with open(cf) as fp:
                     data = json.load(fp)
-            return fams, cx, res, data
+            return fams + ["%d/%d" % (part, nparts)], cx, res, data
         finally:
             import shutil
             shutil.rmtree(sd, ignore_errors=True)
@@ -230,7 +235,7 @@ def main(chk, replay=None):
     consts_text, consts, bound = c17_tal.import_constants()
     if replay:
         cases, contexts = load_replay(replay), {}
-        _c, contexts, tot = model_check(chk, [["void"]], t["ctxs"], INVS17, consts_text)
+        _c, contexts, tot = model_check(chk, [(["void"], 1)], t["ctxs"], INVS17, consts_text)
     else:
         cases, contexts, tot = model_check(chk, t["parts"], t["ctxs"], INVS17, consts_text)
     random.Random(chk.seed).shuffle(cases)
